@@ -1208,6 +1208,26 @@ example : ((run copiedFile copyHistory).links 9, (run copiedFile copyHistory).li
     (run copiedFile copyHistory).getAttr 4 "label") =
     ([], [], [("a", 4)], [("id:0", 4)], none) := by decide
 
+/-- a history on the source: relabel the original array, then delete it -/
+def sourceHistory : List Op :=
+  [.setAttr [.name "data", .name "b", .name "data_arrays", .name "a"] "label" (some "x"),
+   .del [.name "data", .name "b"] "data_arrays" (.pos 0)]
+
+theorem linkedFile_reach_a : ReachF linkedFile 2 4 :=
+  .step (p := 3) (k := 4) "a" (.step (p := 2) (k := 3) "data_arrays" .refl (by decide)) (by decide)
+
+/-- every call of it is addressed to the source's side (non-vacuity of `independent_history_source_side`) -/
+example : AddressedAll (SourceSide linkedFile 2 copiedFile) true copiedFile sourceHistory :=
+  ⟨⟨⟨4, 3, "a", 4⟩, rfl, .inl linkedFile_reach_a⟩, .inl rfl,
+   ⟨⟨⟨2, 1, "b", 2⟩, rfl, .inl .refl⟩, trivial⟩, .inl rfl, trivial⟩
+
+/-- it empties the original's array list and tag references; the copy keeps its array (10), the copied
+tag its reference to it, and the copied array is not relabelled -/
+example : ((run copiedFile sourceHistory).links 3, (run copiedFile sourceHistory).links 7,
+    (run copiedFile sourceHistory).links 9, (run copiedFile sourceHistory).links 13,
+    (run copiedFile sourceHistory).getAttr 10 "label") =
+    ([], [], [("a", 10)], [("id:0", 10)], none) := by decide
+
 /-! ### non-vacuity of the source-shape theorems; what a narrower visitor would do -/
 
 /-- a section `s` (2, `id:0`) with one Property `p` (4: a *dataset*, `id:1`) -/
